@@ -241,6 +241,11 @@ func (p *Parser) lookupConverterFunc(funcName string, pos token.Pos) (argType, r
 		err = logger.Errorf("%v: %v isn't a function", p.fset.Position(pos), funcName)
 		return
 	}
+	if obj.Pkg() != nil && obj.Pkg() != p.pkg.Types && !obj.Exported() {
+		// The generated code could not call it.
+		err = logger.Errorf("%v: function %v is not exported", p.fset.Position(pos), funcName)
+		return
+	}
 	if sig.Params().Len() != 1 || sig.Results().Len() < 1 || 2 < sig.Results().Len() {
 		err = logger.Errorf("%v: function %v cannot use as a converter", p.fset.Position(pos), funcName)
 		return
